@@ -98,10 +98,37 @@ func sourceArrayArg(c *Ctx, r *Report, disp, strat *ssa.Function) {
 
 // pureAccessor: method whose body is `return recv.<field>`; returns the field name.
 func pureAccessor(fn *ssa.Function) (string, bool) {
-	if fn == nil || len(fn.Blocks) != 1 || len(fn.Params) != 1 {
+	if fn == nil || len(fn.Params) != 1 {
 		return "", false
 	}
-	b := fn.Blocks[0]
+	// the accessor may answer nil for a nil receiver first: `if f == nil { return nil }; return f.x`
+	if len(fn.Blocks) == 3 {
+		b0 := fn.Blocks[0]
+		ifi, isIf := lastInstr(b0).(*ssa.If)
+		if !isIf || len(b0.Instrs) != 2 {
+			return "", false
+		}
+		tv, neq, isT := nilTest(ifi.Cond)
+		if !isT || tv != ssa.Value(fn.Params[0]) {
+			return "", false
+		}
+		nilBlk, body := b0.Succs[0], b0.Succs[1]
+		if neq {
+			nilBlk, body = body, nilBlk
+		}
+		rt, isRet := lastInstr(nilBlk).(*ssa.Return)
+		if !isRet || len(nilBlk.Instrs) != 1 || len(rt.Results) != 1 || !IsNilConst(rt.Results[0]) {
+			return "", false
+		}
+		return pureAccessorBody(fn, body)
+	}
+	if len(fn.Blocks) != 1 {
+		return "", false
+	}
+	return pureAccessorBody(fn, fn.Blocks[0])
+}
+
+func pureAccessorBody(fn *ssa.Function, b *ssa.BasicBlock) (string, bool) {
 	if len(b.Instrs) != 3 {
 		return "", false
 	}
@@ -946,7 +973,21 @@ func dictAndValuesRules(c *Ctx, r *Report) {
 	}
 	rc := rec[0].(*ssa.Call)
 	// both arguments come from toConfig of old / new with err == nil
-	argOK := func(arg ssa.Value, recv *ssa.Parameter) bool {
+	var argOK func(arg ssa.Value, recv *ssa.Parameter) bool
+	argOK = func(arg ssa.Value, recv *ssa.Parameter) bool {
+		// the evaluated config itself on some ways in, a copy of it on the others (a reference is merged into a
+		// copy of what it evaluates to, R10f)
+		if phi, isPhi := arg.(*ssa.Phi); isPhi {
+			for _, e := range phi.Edges {
+				if !argOK(e, recv) {
+					return false
+				}
+			}
+			return len(phi.Edges) > 0
+		}
+		if src, isCopy := copiedConfig(arg); isCopy {
+			return argOK(src, recv)
+		}
 		e, ok := arg.(*ssa.Extract)
 		if !ok || e.Index != 0 {
 			return false
@@ -1009,7 +1050,21 @@ func dictAndValuesRules(c *Ctx, r *Report) {
 				}
 			}
 		}
+		// … or under isNil(old), which covers the absent key and the explicit null
+		nullToo := false
+		isNilF := c.TryFunc("", "isNil")
+		for _, ret := range Returns(mv) {
+			if len(ret.Results) == 2 && ret.Results[0] == ssa.Value(nv) {
+				for _, cd := range DomConds(ret.Block()) {
+					if call, isCall := cd.V.(*ssa.Call); isCall && cd.Truth && isNilF != nil && IsCallTo(call, isNilF) && call.Call.Args[0] == old {
+						ok, nullToo = true, true
+					}
+				}
+			}
+		}
 		r.Check(ok, "R01e", name, "nil old", c.Pos(mv.Pos()), "old == nil returns the new value", "a key absent from the destination no longer simply takes the source value")
+		r.Check(nullToo, "R01e", name, "null old", c.Pos(mv.Pos()), "isNil(old) returns the new value",
+			"an explicit null in the destination is not replaced like an absent key: a null reads as an empty object (cfgNil.toConfig), so merging a null or an empty list over it — or the config into itself — turns it into an object, and Unpack into a string or a pointer then fails")
 	}
 	// mergeConfig: dict then arr
 	{
@@ -1031,4 +1086,55 @@ func dictAndValuesRules(c *Ctx, r *Report) {
 		}
 		r.Check(ok, "R01e", c.FnName(mc), "dict then array", c.Pos(mc.Pos()), "mergeConfigDict(opts,to,from) then mergeConfigArr(opts,to,from) on every successful path", "mergeConfig does not run the dictionary part and then the array part with its own (opts, to, from)")
 	}
+}
+
+// copiedConfig: v is the config of a copy made here — cfgSub{src}.cpy(ctx).(cfgSub).c, or
+// cfgSub{src}.cpy(ctx).toConfig(opts) — and src is the only config the copied literal was given.
+func copiedConfig(v ssa.Value) (ssa.Value, bool) {
+	var made ssa.Value
+	switch x := v.(type) {
+	case *ssa.Field:
+		made = x.X
+		if ta, ok := made.(*ssa.TypeAssert); ok {
+			made = ta.X
+		}
+	case *ssa.Extract:
+		call, ok := x.Tuple.(*ssa.Call)
+		if !ok || x.Index != 0 || !call.Call.IsInvoke() || call.Call.Method.Name() != "toConfig" {
+			return nil, false
+		}
+		made = call.Call.Value
+	default:
+		return nil, false
+	}
+	call, ok := made.(*ssa.Call)
+	if !ok || calledName(call) != "cpy" || call.Call.IsInvoke() || len(call.Call.Args) == 0 || typeStr(call.Call.Args[0].Type()) != "ucfg.cfgSub" {
+		return nil, false
+	}
+	ld, ok := call.Call.Args[0].(*ssa.UnOp)
+	if !ok || ld.Op != token.MUL {
+		return nil, false
+	}
+	al, ok := ld.X.(*ssa.Alloc)
+	if !ok {
+		return nil, false
+	}
+	var src ssa.Value
+	for _, ref := range *al.Referrers() {
+		switch u := ref.(type) {
+		case *ssa.FieldAddr:
+			for _, r2 := range *u.Referrers() {
+				st, isSt := r2.(*ssa.Store)
+				if !isSt || st.Addr != ssa.Value(u) || src != nil {
+					return nil, false
+				}
+				src = st.Val
+			}
+		case *ssa.UnOp:
+		case *ssa.DebugRef:
+		default:
+			return nil, false
+		}
+	}
+	return src, src != nil
 }
